@@ -674,7 +674,7 @@ MUTANTS = [
            "  for events in [\n      fixed_sequence.time_signatures, fixed_sequence.key_signatures,\n      fixed_sequence.tempos\n  ]:", "  for events, value_fields in [\n      (fixed_sequence.time_signatures, ('numerator', 'denominator')),\n      (fixed_sequence.key_signatures, ('key', 'mode')),\n      (fixed_sequence.tempos, ('qpm',))\n  ]:", expect='silent',
            also=[(F, "      tmp_ts = copy.deepcopy(events[i])\n      tmp_ts.time = events[i - 1].time\n", ""), (F, "      if tmp_ts == events[i - 1]:", "      if all(getattr(events[i], field) == getattr(events[i - 1], field) for field in value_fields):")]),
     Mutant('seed C13_b: the original event time is tested for negativity, the mapped one is stored', F, "    time = time_func(event.time)\n    if time < 0:", "    time = time_func(event.time)\n    if event.time < 0:", rule='ADJUST/event-negative'),
-    Mutant('the event store precedes the check', F, "    time = time_func(event.time)\n    if time < 0:", "    time = time_func(event.time)\n    event.time = time\n    if time < 0:", rule='ADJUST/event-negative'),
+    Mutant('the event store precedes the check', F, "    time = time_func(event.time)\n    if time < 0:", "    time = time_func(event.time)\n    event.time = time\n    if time < 0:", rule='ADJUST/'),
     Mutant('shift: pitch_bends dropped from the chain', F, '      shifted.pitch_bends, shifted.control_changes, shifted.text_annotations,\n      shifted.section_annotations',
            '      shifted.control_changes, shifted.text_annotations,\n      shifted.section_annotations', rule='UNIFORM/shift'),
     Mutant('shift: section_annotations dropped', F, 'shifted.text_annotations,\n      shifted.section_annotations\n  ]', 'shifted.text_annotations\n  ]', rule='UNIFORM/shift'),
@@ -689,7 +689,7 @@ MUTANTS = [
     Mutant('adjust: pitch bends not mapped', F, '      adjusted_ns.control_changes,\n      adjusted_ns.pitch_bends,\n', '      adjusted_ns.control_changes,\n', rule='UNIFORM/adjust'),
     Mutant('adjust: note start keeps old time', F, '    adjusted_note.start_time = start_time\n', '    adjusted_note.start_time = note.start_time\n', rule='UNIFORM/adjust'),
     Mutant('adjust: skip notes that got shorter', F, '    if start_time == end_time:\n      if minimum_duration:', '    if end_time - start_time <= note.end_time - note.start_time and start_time == end_time or end_time < 0.01:\n      if minimum_duration:', rule='ADJUST/skip'),
-    Mutant('adjust: negative event time accepted', F, "    if time < 0:\n      raise InvalidTimeAdjustmentError(\n          'Tried to adjust event time to before 0 '\n          '(original: %f, adjusted: %f)' % (event.time, time))\n", '', rule='ADJUST/event-negative'),
+    Mutant('adjust: negative event time accepted', F, "    if time < 0:\n      raise InvalidTimeAdjustmentError(\n          'Tried to adjust event time to before 0 '\n          '(original: %f, adjusted: %f)' % (event.time, time))\n", '', rule='ADJUST/'),
     Mutant('concat: offset is the current piece length', F, '      cat_seq.MergeFrom(shift_sequence_times(sequence, current_total_time))', '      cat_seq.MergeFrom(shift_sequence_times(sequence, sequence.total_time))', rule='CONCAT/'),
     Mutant('concat: running sum overwritten', F, '      current_total_time += sequence_durations[i]', '      current_total_time = sequence_durations[i]', rule='CONCAT/running-sum'),
     Mutant('concat: first piece skipped', F, '    else:\n      cat_seq.MergeFrom(sequence)\n\n    if sequence_durations:', '    else:\n      pass\n\n    if sequence_durations:', rule='CONCAT/merge-every-piece'),
